@@ -46,7 +46,8 @@ def check_router_status(ctx, status):
     kwname = status.args.kwarg.arg
     n = 0
     for consume in (True, False):
-        for rc in ("<absent>", None, "a", "a/b", "a/b/c", "z", "z/a", "ab", "ab/c"):
+        # (codes whose next segment repeats the consumed one -- nested workers numbered alike -- included)
+        for rc in ("<absent>", None, "a", "a/b", "a/b/c", "a/a", "a/a/b", "a/aa/a", "z", "z/a", "ab", "ab/c"):
             for tid in ("<absent>", "T1", "T9"):
                 items = []
                 if tid != "<absent>":
